@@ -1096,12 +1096,10 @@ impl TypeSpace {
                     }
                 }
 
-                if min.is_none() {
-                    min = Some(*imin);
-                }
-                if max.is_none() {
-                    max = Some(*imax);
-                }
+                // The format bounds the value as well: explicit bounds that
+                // are looser than the format do not widen the range.
+                min = Some(min.map_or(*imin, |fmin| fmin.max(*imin)));
+                max = Some(max.map_or(*imax, |fmax| fmax.min(*imax)));
             }
         }
 
